@@ -335,6 +335,17 @@ fn hostile_shapes(quick: bool) -> Vec<(String, String, Option<String>)> {
 pub fn c10(ctx: &Ctx, rep: &mut Report) {
     let dir = ctx.scratch("c10");
     if let Some(r) = &ctx.replay {
+        if let (Some(b64s), Some(expect), Some(ok)) = (r.get("bytecode_b64").and_then(|s| s.as_str()), r.get("expected_stdout").and_then(|s| s.as_str()), r.get("expected_success").and_then(|s| s.as_bool())) {
+            let b = dir.join("replay.bc");
+            if std::fs::write(&b, super::super::unb64(b64s)).is_ok() {
+                let e = cli::run(cli::Spec::new(&["execute", b.to_str().unwrap()]));
+                rep.evaluations += 1;
+                if crash_freedom(rep, "replay", "fml execute", &e, r) && (e.success() != ok || e.out_str() != expect) {
+                    rep.violation("C10:bytecode:replay", format!("`fml execute` must {} with stdout {:?}; observed {}", if ok { "succeed" } else { "fail" }, expect, e.describe()), r.clone());
+                }
+            }
+            return;
+        }
         let f = dir.join("replay.fml");
         if let Some(b) = r.get("source_b64").and_then(|s| s.as_str()) {
             let bytes = super::super::unb64(b);
@@ -430,6 +441,36 @@ pub fn c10(ctx: &Ctx, rep: &mut Report) {
                 }
             }
         }
+    }
+    // (3b) hand-assembled bytecode through `fml execute`: instructions that are undefined only when they
+    // run (undefined escape, placeholder mismatch, unknown function, duplicate members, unknown
+    // global) sit in dead code or after earlier output; the run stops exactly where one executes
+    for (name, prog, expect, ok) in super::vm::special_programs() {
+        k += 1;
+        if !ctx.mine(k) {
+            continue;
+        }
+        let bytes = super::super::bcfmt::write(&prog);
+        let b = dir.join(format!("special{}.bc", k));
+        if std::fs::write(&b, &bytes).is_err() {
+            continue;
+        }
+        let replay = json!({"check":"C10","bytecode_b64": super::super::b64(&bytes), "expected_stdout": expect, "expected_success": ok, "special": name});
+        for via_stdin in [false, true].iter() {
+            let e = if *via_stdin { cli::run(cli::Spec::new(&["execute"]).stdin(&bytes)) } else { cli::run(cli::Spec::new(&["execute", b.to_str().unwrap()])) };
+            rep.evaluations += 1;
+            if crash_freedom(rep, name, "fml execute", &e, &replay) {
+                rep.bump("c10-hand-assembled-bytecode", if ok { "runs to the end" } else { "fails where the instruction executes" });
+                if e.success() != ok || e.out_str() != expect || (!ok && e.stderr.is_empty()) || (ok && !e.stderr.is_empty()) {
+                    rep.violation(
+                        &format!("C10:bytecode:{}", name),
+                        format!("{}: `fml execute` must {} with stdout {:?}; observed {}", name, if ok { "succeed" } else { "fail" }, expect, e.describe()),
+                        replay.clone(),
+                    );
+                }
+            }
+        }
+        let _ = std::fs::remove_file(&b);
     }
     // (2a) a fixed list of invalid sources: each must be rejected as a whole — nothing runs, nothing
     // reaches stdout, a diagnostic goes to stderr, the exit status is non-zero
